@@ -47,6 +47,21 @@ def gen_cases(tier, seed):
         for mode in ('NO_OVERFLOW', 'DROP_OLD'):
             cases.append({'k': 'stack', 'n': n, 'mode': mode, 'dw': 2, 'seed': seed})
             cases.append({'k': 'stack', 'n': n, 'mode': mode, 'dw': 8, 'seed': seed + 1})
+    if tier == 'thorough':
+        # the same configurations with other seeds and more capacities, and much longer runs
+        extra = []
+        for k in (1, 2, 3):
+            extra += [dict(c, seed=c['seed'] + 1000 * k) for c in cases]
+        for n in (6, 9, 16):
+            extra.append({'k': 'fifo1', 'n': n, 'dw': 8, 'seed': seed + n})
+            extra.append({'k': 'fifo2', 'n': n, 'tx': 2, 'rx': 1, 'seed': seed + n})
+            for mode in ('NO_OVERFLOW', 'DROP_OLD'):
+                extra.append({'k': 'stack', 'n': n, 'mode': mode, 'dw': 8, 'seed': seed + n})
+        cases += extra
+        for c in cases:
+            c['scale'] = 6
+            if c['k'] == 'fifo2':
+                c['clocks'] = 12000
     return cases
 
 
@@ -387,12 +402,12 @@ def run_case(case):
             h.start()
             stats = {'states': 0}
             if case['dw'] <= 2:
-                m, stats = explore.bfs(h, budget=6000 if case['n'] <= 5 else 3000, max_depth=40)
+                m, stats = explore.bfs(h, budget=(6000 if case['n'] <= 5 else 3000) * (2 if case.get('scale') else 1), max_depth=40)
                 cnt['joint_states'] += stats['states']
                 cnt['edges'] += stats['edges']
                 cnt['closures_reached'] += int(stats.get('closed', False))
             if m is None:
-                m = explore.random_run(h, rnd, 4000, choose=boundary_choice if case['k'] == 'fifo1' else None)
+                m = explore.random_run(h, rnd, 4000 * case.get('scale', 1), choose=boundary_choice if case['k'] == 'fifo1' else None)
             if case['k'] == 'fifo1':
                 cnt['fifo_elements_transferred'] += h.model['moved']
             else:
